@@ -475,6 +475,11 @@ func (r *Rec) LoadReplays(t *testing.T) []ReplayFile {
 // ReplayOnly reports whether this process was asked to replay one file only.
 func ReplayOnly() bool { return *Replay != "" }
 
+// Label names the files a shard process leaves for the driver (in-flight case
+// of the watchdog): one name per shard, so that shards that fire at the same
+// time do not overwrite each other.
+func Label(prop string) string { return fmt.Sprintf("%s.shard%d", prop, *Shard) }
+
 // FailReplay records that a replayed case still violates the property.
 func (r *Rec) FailReplay(rf ReplayFile, format string, a ...interface{}) {
 	f := rf
